@@ -237,7 +237,14 @@ let show_steps h (l : istep list) : string =
     | IVal (VUint x) -> hn x
     | IVal (VBool b) -> show_bool b
     | IVal v -> sval v
-    | INode (t, n) -> hb (root_of h n)
+    | INode (t, n) ->
+      (* the harness renders an element by the hash-tree-root of the typed view; for the
+         single-chunk types that is the value read off the leaf (bytes beyond the type's
+         width, which only a malformed backing has, do not show) *)
+      (match t, n with
+       | (TUint _ | TBool | TBytes _ | TRoot), Leaf c ->
+         (match leaf_val t c with OK v -> hb (pad32 (spec_ser t v)) | _ -> "ERR")
+       | _ -> hb (root_of h n))
     | IEnd -> "END" | IErr -> "ERR" | IPanic -> "PANIC") l)
 
 (* Get(i) for i = 0 .. len-1 with a binary counter (the model's get_all walks a unary nat and
